@@ -66,6 +66,7 @@ func (d Doc) PBF() []byte {
 		if e.Tagged {
 			k, v = "a", "b"
 		}
+		_ = e.NoTag // (untagged elements are used in Filter scenarios only, which read XML)
 		var st []byte
 		for _, s := range []string{"", k, v} {
 			st = pbBytes(st, 1, []byte(s))
